@@ -126,6 +126,9 @@ class Program:
                 a = " ".join("#[educe(%s)]" % x for x in f.attrs) + " "
             else:
                 a = "#[educe(%s)] " % ", ".join(f.attrs)
+        if with_attrs and f.sem.get("_foreign_attrs"):
+            pre, post = f.sem["_foreign_attrs"]
+            a = pre + a + post
         p = "pub " if pub else ""
         if f.name is None:
             return "%s%s%s" % (a, p, f.ty)
